@@ -38,6 +38,12 @@ CLAIMED = {
         technique="symbolic interpretation of match arms (syn) + computer algebra decision of rational identities",
         design_ref="DESIGN.md section 4 C12, section 3 K9",
     ),
+    "C13": dict(
+        level="other",
+        text="Traversal coverage of Expression::evaluate, ::substitute_variables and MemoryReferences::next: every variant with sub-expressions is matched in an explicit arm that binds and uses every child, Address/Variable leaves are bound where needed; substitute_variables rebuilds nodes with the same operator/function and child positions; evaluate feeds calculate_infix from left/operator/right; calculate_infix, calculate_function and prefix minus agree with the specification's arithmetic semantics (tables read from source); Incomplete is produced only by the two lookups. Numeric agreement of evaluation orders is not decided.",
+        technique="type-directed coverage (HIR patterns + MIR uses) + provenance of rebuilt nodes + table agreement with a specification oracle",
+        design_ref="DESIGN.md section 4 C13",
+    ),
     "C14": dict(
         level="proof",
         text="Both gate tables are evaluated symbolically from their static initialisers in the source and each of the 22 entries is proven equal (sympy) to the Quil specification matrix; key sets must equal the property's gate list and the tables must be the ones reachable from Gate::to_unitary. Proves the table clause for every parameter value; the n-qubit lifting code is not decided.",
